@@ -224,12 +224,13 @@ pub fn scenario_for<P: Prop>(p: &P, opts: &Opts, idx: u64, sweep: bool, stats: &
 pub fn minimise<P: Prop>(p: &P, sc: &P::Sc, clause: &str, budget: usize) -> (P::Sc, usize) {
     let mut cur = sc.clone();
     let mut execs = 0usize;
+    let started = Instant::now();
     let size = |s: &P::Sc| serde_json::to_string(s).map(|x| x.len()).unwrap_or(usize::MAX);
     let mut cur_size = size(&cur);
     'outer: loop {
         let cands = p.shrink(&cur);
         for c in cands {
-            if execs >= budget {
+            if execs >= budget || started.elapsed().as_secs() > 90 {
                 break 'outer;
             }
             let cs = size(&c);
@@ -370,9 +371,12 @@ pub fn run_batch<P: Prop>(p: &P, opts: &Opts) -> i32 {
         .expect("pool");
 
     let total = n_sweep + n_runs;
-    let chunk = 256u64;
+    let chunk = (total / (workers as u64 * 8)).clamp(1, 256);
     let n_chunks = (total + chunk - 1) / chunk;
     let hashes: Mutex<Vec<(u64, u64)>> = Mutex::new(Vec::new());
+    // after this many failing runs the rest of the batch is skipped (a broken tree need not be
+    // explored to the end; the evidence then reports fewer evaluations)
+    let failures_seen = AtomicU64::new(0);
     let want_hashes = opts.dump_hashes.is_some();
 
     let agg = pool.install(|| {
@@ -384,6 +388,9 @@ pub fn run_batch<P: Prop>(p: &P, opts: &Opts) -> i32 {
                 let slot = rayon::current_thread_index().unwrap_or(workers).min(workers);
                 let mut local_hashes = Vec::new();
                 for g in c * chunk..((c + 1) * chunk).min(total) {
+                    if failures_seen.load(Ordering::Relaxed) >= 24 {
+                        break;
+                    }
                     let (idx, sweep) = if g < n_sweep { (g, true) } else { (g - n_sweep, false) };
                     // tag: top bit = sweep
                     slots[slot].1.store(t0.elapsed().as_millis() as u64, Ordering::Relaxed);
@@ -393,6 +400,9 @@ pub fn run_batch<P: Prop>(p: &P, opts: &Opts) -> i32 {
                     slots[slot].0.store(u64::MAX, Ordering::Relaxed);
                     if want_hashes {
                         local_hashes.push((g, r.trace_hash));
+                    }
+                    if !r.violations.is_empty() {
+                        let _ = failures_seen.fetch_add(1, Ordering::Relaxed);
                     }
                     a.add(idx, sweep, &r);
                 }
